@@ -93,7 +93,9 @@ func (s *Server) setExpire(db int, key string, at int64) {
 	if at == 0 {
 		return
 	}
-	d := time.Duration(at-nowMs()) * time.Millisecond
+	// fire exactly when the clock reaches the expiry millisecond, so that the deletion (and its
+	// invalidation push) happens at the instant the key stops being readable
+	d := time.Until(time.UnixMilli(at))
 	if d < 0 {
 		d = 0
 	}
